@@ -316,6 +316,14 @@ func (expr *term) Evaluate(ctx *ExecutionContext) (*Value, *Error) {
 			}
 			return AsValue(f1.Integer() / divisor), nil
 		case "%":
+			if f1.IsFloat() || f2.IsFloat() {
+				// Result will be float
+				divisor := f2.Float()
+				if divisor == 0 {
+					return nil, ctx.Error("float divide by zero", expr.factor2.GetPositionToken())
+				}
+				return AsValue(math.Mod(f1.Float(), divisor)), nil
+			}
 			// Result will be int
 			divisor := f2.Integer()
 			if divisor == 0 {
